@@ -24,7 +24,7 @@ func init() {
 		Rule: "one run = N searches pipelined on one connection (N in {2,8,64}; up to 512 in thorough); each handler first joins a barrier that opens only when all N handlers have entered " +
 			"(simultaneity is proven, not assumed), then writes K entries with unique ids (h=<message id>,j=<seq>) whose payload is a function of (h,j,len), len cycling through {3,100,5000,70000} " +
 			"(below/above the 4096-byte write buffer), then SearchDone; every Write result is logged. Runs cover plain / TLS-listener / StartTLS-upgraded transports x eager / back-pressure reading x GOMAXPROCS {1,2,4,16}, " +
-			"under the race detector; plus thousands of small bursts (2..4 writers, then silence) on one long-lived connection, where every frame of a burst must arrive before the client sends anything else; and runs in which the server is stopped while handlers are writing and the client keeps pipelining (gldap's own shutdown notice shares the stream); runs in which the client (16KB receive buffer) stops reading for 2.6..4.4s in the middle of a stream of 70KB frames, so that one writer sits in the network write and the others wait for it all that time; runs against a server with a write timeout in which a frame larger than every socket buffer is written to a client that reads again only after a Write has failed, followed by a further request; victim connections that reset in the middle of a response before and between the writer rounds; connections that stay in use after one to three Writes panicked while encoding (recovered); single frames whose encoded size sweeps the neighbourhood of the write buffer size, each followed by silence; pipelines that end with an Unbind so that the server closes while the slow client still has most frames to read; and pipelines with a StartTLS request behind the searches, which the server answers from the read loop while the handlers write; and handlers that panic (recovered) while another handler of their connection is blocked in Write. Oracle: strict incremental parse; multiset of ids == set of successful writes; per-writer order; payload check. " +
+			"under the race detector; plus thousands of small bursts (2..4 writers, then silence) on one long-lived connection, where every frame of a burst must arrive before the client sends anything else (a second server in the process has a connection of the same number, which ends a third of the way through); and runs in which the server is stopped while handlers are writing and the client keeps pipelining (gldap's own shutdown notice shares the stream); runs in which the client (16KB receive buffer) stops reading for 2.6..4.4s in the middle of a stream of 70KB frames, so that one writer sits in the network write and the others wait for it all that time; runs against a server with a write timeout in which a frame larger than every socket buffer is written to a client that reads again only after a Write has failed, followed by a further request; victim connections that reset in the middle of a response before and between the writer rounds; connections that stay in use after one to three Writes panicked while encoding (recovered); single frames whose encoded size sweeps the neighbourhood of the write buffer size, each followed by silence; pipelines that end with an Unbind so that the server closes while the slow client still has most frames to read; and pipelines with a StartTLS request behind the searches, which the server answers from the read loop while the handlers write; and handlers that panic (recovered) while another handler of their connection is blocked in Write. Oracle: strict incremental parse; multiset of ids == set of successful writes; per-writer order; payload check. " +
 			"distinct_nontrivial = distinct cross-writer interleaving signatures (order of writer ids in the received stream) with at least one cross-writer switch",
 		Assume: []string{"the client-side parser (internal/sber) is strict and independent of asn1-ber"},
 		Phases: func(tier string, seed int64) []Phase {
@@ -43,7 +43,7 @@ func init() {
 			}
 			return ps
 		},
-		MinObserved: []string{"frames_checked", "cross_writer_switches", "barrier_openings", "bursts_fully_answered_without_further_traffic", "stops_during_concurrent_writes", "write_timeout_runs", "victim_connections_reset_mid_response", "connections_used_after_a_panic_inside_write", "single_frames_around_the_write_buffer_size", "runs_in_which_the_server_closes_before_the_client_has_read_everything", "runs_with_a_starttls_request_answered_among_the_writers", "panics_next_to_a_writer_blocked_in_write", "runs_in_which_the_client_stopped_reading_for_seconds"},
+		MinObserved: []string{"frames_checked", "cross_writer_switches", "barrier_openings", "bursts_fully_answered_without_further_traffic", "stops_during_concurrent_writes", "write_timeout_runs", "victim_connections_reset_mid_response", "connections_used_after_a_panic_inside_write", "single_frames_around_the_write_buffer_size", "runs_in_which_the_server_closes_before_the_client_has_read_everything", "runs_with_a_starttls_request_answered_among_the_writers", "panics_next_to_a_writer_blocked_in_write", "runs_in_which_the_client_stopped_reading_for_seconds", "bursts_runs_in_which_another_servers_connection_of_the_same_number_ended"},
 	})
 }
 
@@ -447,6 +447,27 @@ func c05Bursts(c *Ctx, r *Rand, bursts int) {
 		return
 	}
 	defer cl.Close()
+	// a second server lives in the same process and has a connection that carries the SAME number as ours (connection
+	// numbers are per server); it goes away in the middle of the bursts. What one server's connections do is nothing to
+	// another server's.
+	var otherConn *Client
+	if other, err := startSrv(SrvCfg{}, func(m *gldap.Mux) {
+		m.Search(func(w *gldap.ResponseWriter, req *gldap.Request) {
+			w.Write(req.NewSearchDoneResponse(gldap.WithResponseCode(0)))
+		})
+	}); err == nil {
+		defer other.StopWithin(patience)
+		if oc, err := dialRaw(other.Addr, nil); err == nil {
+			oc.Send(sber.Message(1, sber.Search{Base: []byte("dc=x"), Scope: 2, Filter: sber.PresentFilter("objectClass"), Attrs: [][]byte{}}.Node(), nil).Encode())
+			oc.ReadMsg(patience)
+			otherConn = oc
+			defer func() {
+				if otherConn != nil {
+					otherConn.Close()
+				}
+			}()
+		}
+	}
 	id := int64(1)
 	// size sweep first: single frames whose encoded length runs through the neighbourhood of the 4096-byte write buffer
 	// (and of twice that), each followed by silence until it has arrived
@@ -458,6 +479,13 @@ func c05Bursts(c *Ctx, r *Rand, bursts int) {
 		sweep = append(sweep, n)
 	}
 	for b := 0; b < bursts+len(sweep); b++ {
+		if otherConn != nil && b == len(sweep)+bursts/3 {
+			// the other server's connection of the same number ends now, between two of our requests
+			otherConn.Close()
+			otherConn = nil
+			time.Sleep(5 * time.Millisecond)
+			c.Count("bursts_runs_in_which_another_servers_connection_of_the_same_number_ended", 1)
+		}
 		n := 2 + r.Intn(3)
 		per := 2
 		base := "dc=x"
